@@ -33,7 +33,7 @@ def cfg_text(name, **repl):
 def main():
     ck = vlib.Check("C15", "model_checking")
     thorough = ck.tier == "thorough"
-    corrupt = os.environ.get("VERIF_SELFTEST_CORRUPT") == "1"
+    corrupt = os.environ.get("VERIF_SELFTEST_CORRUPT") == "1"     # "2": corrupt the recorded trace instead
     hook_file = os.path.join(vlib.REPO, "cmd", "templ", "generatecmd", "verifhook_on.go")
     hooks = os.path.exists(hook_file) and "VerifHook" in open(hook_file).read()
     if not hooks and os.environ.get("VERIF_REQUIRE_HOOKS") == "1":
@@ -132,6 +132,9 @@ def main():
         if s["perturbations"] == 0:
             raise vlib.InfraError("no schedule perturbation happened")
         trace = open(tpath).read()
+        if os.environ.get("VERIF_SELFTEST_CORRUPT") == "2":
+            # binding self-test of VAL: one recorded "write" is turned into a "remove" that never happened
+            trace = trace.replace('"ev":"write"', '"ev":"remove"', 1)
         nlines = trace.count("\n")
         kinds = set(re.findall(r'"ev":"([a-z-]+)"', trace))
         need = {"reset", "event", "start", "modtime", "hash", "write", "error", "post", "remove", "end", "workers-done", "close-errs", "errs-drained", "exit"}
